@@ -33,24 +33,22 @@ def divRoundHalfEven (n d : Nat) : Nat :=
 def scaledRound (n d : Nat) (q : Int) : Nat :=
   if q ≥ 0 then divRoundHalfEven n (d * 2 ^ q.toNat) else divRoundHalfEven (n * 2 ^ (-q).toNat) d
 
-/-- search for the binary exponent at which the rounded significand lies in
-`[2^52, 2^53)` (or the exponent is the subnormal one) -/
-def findExp (n d : Nat) : Nat → Int → Nat × Int
-  | 0, q => (scaledRound n d q, q)
-  | fuel + 1, q =>
-    let m := scaledRound n d q
-    if m ≥ 2 ^ 53 then findExp n d fuel (q + 1)
-    else if m < 2 ^ 52 && q > -1074 then findExp n d fuel (q - 1)
-    else (m, q)
+/-- `floor(log2(n / d))` for positive `n`, `d` -/
+def floorLog2Ratio (n d : Nat) : Int :=
+  let lg : Int := (Nat.log2 n : Int) - (Nat.log2 d : Int)
+  -- 2^(lg-1) < n/d < 2^(lg+1): decide which side of 2^lg
+  let ge := if lg ≥ 0 then n ≥ d * 2 ^ lg.toNat else n * 2 ^ (-lg).toNat ≥ d
+  if ge then lg else lg - 1
 
-/-- the positive rational `n / d` rounded to binary64; `none` = overflow -/
+/-- the positive rational `n / d` rounded to binary64; `none` = overflow.
+The binary exponent comes from the exact magnitude (not from a rounded
+significand: just below a power of two the grid is twice as fine). -/
 def roundRatio (n d : Nat) : Option (Nat × Int) :=
   if n = 0 then some (0, -1074) else
-  let lg : Int := (Nat.log2 n : Int) - (Nat.log2 d : Int)
-  let q0 : Int := max (lg - 52) (-1074)
-  let r := findExp n d 6 q0
-  -- a carry out of the rounding gives 2^53 at the final exponent
-  let r := if r.1 = 2 ^ 53 then (2 ^ 52, r.2 + 1) else r
+  let q : Int := max (floorLog2Ratio n d - 52) (-1074)
+  let m := scaledRound n d q
+  -- a carry out of the rounding gives 2^53: the next power of two
+  let r : Nat × Int := if m = 2 ^ 53 then (2 ^ 52, q + 1) else (m, q)
   if r.2 > 971 then none else some r
 
 /-- number of decimal digits of `n` (`0` has one) -/
